@@ -12,8 +12,8 @@ from ..core import fmt, fmt_list, fmt_ints, fmt_opt, parse_rats, frac, err_kind,
 
 ID = "C17"
 THREADS = True       # part of the cases run concurrently in threads of one interpreter (the schedule dimension)
-MODULES = ["TWV.Tie.ArrayHelpers", "TWV.Properties.C17", "TWV.Tie.Vector"]
-TRANSLATORS = ["t8_arrays", "t3_vector"]
+MODULES = ["TWV.Tie.ArrayHelpers", "TWV.Properties.C17", "TWV.Tie.Vector", "TWV.Tie.IntervalArray", "TWV.Tie.ProcessFns"]
+TRANSLATORS = ["t8_arrays", "t3_vector", "t13_interval", "t10_process"]
 RULE = ("random cases per helper (oversample lin/pc, extend lin/const in three directions with default or explicit end "
         "values, append_one_sample, integral rules, sum_over_indices, IntervalArray get/set/to_2d_array(_closed_intervals)/"
         "nr_of_full_intervals, process.average, average-of-oversampling round trip): arrays of 1..50 elements on a dyadic "
